@@ -341,3 +341,30 @@ Proof.
   - apply Z.leb_le in B. rewrite ev_after by (auto; lia). reflexivity.
   - apply read_loop_ev, Hl.
 Qed.
+
+(** [split_exact] in index form *)
+Theorem split_exact_nth ps sub dec diff :
+  amounts_nonneg ps -> 0 <= sub -> subtract_amount ps sub = Some (dec, diff) ->
+  length dec = length ps /\ length diff = length ps /\
+  (forall i, (i < length ps)%nat ->
+     plen (nth i dec (0, 0)) = plen (nth i ps (0, 0)) /\
+     plen (nth i diff (0, 0)) = plen (nth i ps (0, 0)) /\
+     pamt (nth i dec (0, 0)) + pamt (nth i diff (0, 0)) = pamt (nth i ps (0, 0)) /\
+     0 <= pamt (nth i dec (0, 0)) /\ 0 <= pamt (nth i diff (0, 0))) /\
+  total diff = sub /\ total dec = total ps - sub.
+Proof.
+  intros Hn Hs H. destruct (split_exact _ _ _ _ Hn Hs H) as (S3 & T1 & T2).
+  destruct (split3_length _ _ _ S3) as [L1 L2].
+  repeat split; auto; apply (split3_nth _ _ _ S3 i); auto.
+Qed.
+
+(** a successful split is a split in time as well: the two parts release
+    together, at every time, what the original released *)
+Theorem split_time ps sub dec diff :
+  amounts_nonneg ps -> 0 <= sub -> subtract_amount ps sub = Some (dec, diff) ->
+  forall s t, ev s dec t + ev s diff t = ev s ps t /\ 0 <= ev s dec t /\ 0 <= ev s diff t.
+Proof.
+  intros Hn Hs H s t. destruct (split_exact _ _ _ _ Hn Hs H) as (S3 & _ & _).
+  destruct (split3_amounts _ _ _ S3) as (A & B & _).
+  split; [apply split3_ev, S3|]. split; apply ev_nonneg; auto.
+Qed.
